@@ -213,6 +213,10 @@ func c09Sub(c *core.Ctx, t *tape.Tape, cfg gCfg, faults bool, cut int, kind stri
 	if len(g.W.TCPConns) > 0 {
 		c.Probe("turn-over-tcp-connection")
 	}
+	if g.turn.Undeallocated > 0 {
+		c.Failf("C09/relay-allocation-not-released", "%s: %d relay allocation(s) were not released: the relayed connection was closed only after the TURN client's control connection (the Refresh with lifetime 0 can no longer be sent; the allocation lives on the server until it expires)", where, g.turn.Undeallocated)
+		return steps, false
+	}
 	for i, cl := range g.turn.Snapshot() {
 		if cl.CloseCalls == 0 {
 			c.Failf("C09/turn-client-not-closed", "%s: TURN client #%d (listened=%v, %d allocations) was never closed", where, i, cl.Listened, len(cl.Allocated))
